@@ -28,7 +28,6 @@ const CONS: &[&str] = &["C15"];
 const BUILD: &[&str] = &["C15", "C11"];
 const MACRO_NEW: &[&str] = &["C15", "C11"];
 const MACRO_OLD: &[&str] = &["C11"];
-const DEAD: &[&str] = &["C15", "C11", "C01"];
 const LEDGER_UB: &[&str] = &["C15", "C01"];
 const LEDGER_LEAK: &[&str] = &["C15"];
 
@@ -58,7 +57,12 @@ impl<'c> FW<'c> {
 
     fn check_ids(&self, props: &[&str], what: &dyn std::fmt::Display, got: &[(u32, bool)], want: &[u32]) -> Res {
         if got.iter().any(|(_, ok)| !ok) {
-            return self.fail(DEAD, "dead-slot", format!("{what}: a slot does not hold a live, bit-for-bit intact token: {:?}", got));
+            // attributed to the properties the observed container belongs to (plus C01: dead memory was read)
+            let mut p: Vec<&str> = props.to_vec();
+            if !p.contains(&"C01") {
+                p.push("C01");
+            }
+            return self.fail(&p, "dead-slot", format!("{what}: a slot does not hold a live, bit-for-bit intact token: {:?}", got));
         }
         let g: Vec<u32> = got.iter().map(|x| x.0).collect();
         if g != want {
@@ -207,7 +211,7 @@ impl<'c> FW<'c> {
                         // the caller now owns it (kept even on a mismatch so that it is dropped once)
                         self.held.push(t);
                         if !ok {
-                            return self.fail(DEAD, "dead-slot", format!("{what}: handed out memory that is not a live, intact token"));
+                            return self.fail(LEDGER_UB, "dead-slot", format!("{what}: handed out memory that is not a live, intact token"));
                         }
                         if want != Some(id) {
                             return self.fail(CONS, "taken-wrong-element", format!("{what}: handed out T{id}, the model says {:?}", want));
